@@ -10,7 +10,7 @@ VERIFIES = (KH_VERIFY, ROOT_VERIFY, DELEG_VERIFY)
 
 
 def run(chk, prog):
-    chk.rules_live = ["R1", "R2", "R3", "R4", "R5", "R6", "R7", "R8", "R9", "R10", "R11", "R12", "R13"]
+    chk.rules_live = ["R1", "R2", "R3", "R4", "R5", "R6", "R7", "R8", "R9", "R10", "R11", "R12", "R13", "R14", "R15"]
     chk.explanation = (
         "Structural writer/reader rules over the editor: SignedRole is constructed only where its "
         "digest and length are computed from the very buffer that is written; snapshot/timestamp "
@@ -36,6 +36,8 @@ def run(chk, prog):
     # R13: the signatures the editor attaches are of an algorithm the client's verifier checks with
     from . import c01
     c01.signer_verifier_agreement(chk, prog, "R13")
+    r14_pending_edits_survive_failure(chk, prog)
+    r15_existing_destination_verified(chk, prog)
 
 
 def r1_signed_role(chk, prog):
@@ -569,3 +571,98 @@ def r12_writes_all(chk, prog):
             okl = loop is not None and bool(neg) and not (r & set(dctx.ok_return_blocks()))
         chk.require(okl, "R12", dctx.fn, "every-delegated-role-written",
                     "SignedDelegatedTargets::write does not write every role in a loop with errors propagated")
+
+
+def r14_pending_edits_survive_failure(chk, prog):
+    """'if the editor reports success the result must load and show what was put in' also after a signing
+    attempt that failed: the pending targets editor is given up (set to None / taken) only on a path where
+    create_signed succeeded, or where there was no pending editor"""
+    STE = ED + "sign_targets_editor"
+    ctx = async_body(prog, STE)
+    if ctx is None:
+        chk.anchor_missing("R14", STE)
+        return
+    chk.analysed_body(ctx.body)
+    CS = "tough::editor::targets::TargetsEditor::create_signed"
+    pos = []
+    for bb, t in ctx.calls(CS):
+        pos.extend(ctx.track_call(bb).pos_edges(0))
+    from .c05 import option_switch_edges
+    def pending(o):
+        if o.kind in ("upvar", "param") and o.fields[-1:] == ("targets_editor",):
+            return True
+        if o.kind == "agg" and str(o.key[2]).endswith("Option::None"):
+            return True    # the field's own later `= None` (origins are flow-insensitive here)
+        if is_call(o, "core::option::Option::as_mut", "core::option::Option::as_ref", "core::option::Option::as_deref_mut") and o.extra is not None:
+            src = ctx.origins.of_operand(o.extra.args[0])
+            return bool(src) and all(x.kind in ("upvar", "param") and x.fields[-1:] == ("targets_editor",) for x in src)
+        return False
+    some, none = option_switch_edges(ctx, pending)
+    TAKERS = ("core::option::Option::take", "core::mem::take", "core::mem::replace", "core::option::Option::replace",
+              "core::option::Option::insert", "core::option::Option::take_if")
+    clears = []
+    for b in ctx.body.blocks:
+        if b.cleanup:
+            continue
+        for s_ in b.stmts:
+            if s_.k == "assign" and s_.place.fields()[-1:] == ("targets_editor",):
+                clears.append((b.idx, site_of(s_.sp)))
+        t = b.term
+        if t is not None and t.k == "call" and t.is_call_to(*TAKERS) and t.args:
+            og = ctx.origins.of_operand(t.args[0])
+            if og and any(o.fields[-1:] == ("targets_editor",) for o in og):
+                clears.append((b.idx, site_of(t.sp)))
+    chk.require(bool(clears) and bool(pos), "R14", ctx.fn, "clears-pending-editor",
+                "unrecognised-idiom: sign_targets_editor does not call create_signed / never clears targets_editor")
+    for cb, site in clears:
+        p = ctx.cfg.witness_path([cb], list(pos) + list(none))
+        chk.require(p is None, "R14", ctx.fn, "pending-editor-kept-until-signed",
+                    "the pending targets editor is given up on a path where create_signed has not succeeded: a failed "
+                    "signing attempt loses the accepted edits, and a retry then reports success without them", site,
+                    path=ctx.describe_path(p))
+
+
+def r15_existing_destination_verified(chk, prog):
+    """'every published target file downloads and verifies': an already existing destination (file or link)
+    counts as published only under consistent snapshots (the name carries the digest) or after its
+    content was read through DigestAdapter::sha256(<signed sha256>)"""
+    TP = "tough::editor::signed::TargetsWalker::target_path"
+    ctx = async_body(prog, TP)
+    if ctx is None:
+        chk.anchor_missing("R15", TP)
+        return
+    chk.analysed_body(ctx.body)
+    keep = []
+    for b in ctx.body.blocks:
+        if b.cleanup:
+            continue
+        for s_ in b.stmts:
+            if s_.k == "assign" and s_.rv.k == "agg" and s_.rv.j.get("adt") == "tough::editor::signed::TargetPath" \
+                    and s_.rv.j.get("variant") in ("File", "Symlink"):
+                keep.append((b.idx, s_.rv.j.get("variant"), site_of(s_.sp)))
+    chk.floor("R15", len(keep), 2, "TargetPath::File / TargetPath::Symlink results (existing destination)")
+    cs_true = []
+    for bb, t in ctx.calls("tough::editor::signed::TargetsWalker::consistent_snapshot"):
+        cs_true.extend(ctx.tracker.track(t.dest.local, is_bool=True).pos_edges(0))
+    verified = []
+    for bb, t in ctx.calls("futures_util::stream::try_stream::TryStreamExt::try_for_each",
+                           "futures_util::stream::stream::StreamExt::for_each", "tough::transport::IntoVec::into_vec"):
+        deep = deep_origins(ctx, t.args[0], 6)
+        dig = [o for o in deep if is_call(o, "tough::io::DigestAdapter::sha256")]
+        if not dig:
+            continue
+        good = True
+        for o in dig:
+            h = deep_origins(ctx, o.extra.args[1], 5)
+            good = good and any(x.fields[-2:] == ("hashes", "sha256") and is_call(base(x), "std::collections::hash::map::HashMap::get")
+                                for x in h)
+        if good:
+            verified.extend(ctx.track_call(bb).pos_edges(0))
+    chk.require(bool(cs_true) and bool(verified), "R15", ctx.fn, "digest-check-present",
+                "unrecognised-idiom: no read of the existing destination through DigestAdapter::sha256(repo target's sha256)")
+    for kb, variant, site in keep:
+        p = ctx.cfg.witness_path([kb], list(cs_true) + list(verified))
+        chk.require(p is None, "R15", ctx.fn, "existing-%s-verified" % variant.lower(),
+                    "an existing destination is accepted as the published target (TargetPath::%s) on a path with neither "
+                    "consistent snapshots nor a successful digest check of its content: metadata and served file can "
+                    "disagree" % variant, site, path=ctx.describe_path(p))
